@@ -53,6 +53,12 @@ type Exec struct {
 	minerTruncErr error
 	faulting      bool
 	obsLedgerH    *int64 // ledger height to use for the frozen split when observing another node
+	// walkrace.go: blocks seen on the state machine's chain at or below the irreversible height (of world irrevSetW), the
+	// last race, and the world in which a race left the set of applied blocks unknown
+	irrevSet      map[int]bool
+	irrevSetW     *World
+	irrevUnknownW *World
+	lastRaced     *lastRace
 }
 
 func errEnum(err error) string {
@@ -667,8 +673,9 @@ func (e *Exec) checkState(tag string) {
 		}
 	}
 	// C17
+	e.checkIrrevSet(tag, tip, irrev)
 	if !e.prunedEver {
-		if exp := e.expectedIrrev(); irrev != exp {
+		if exp := e.expectedIrrev(); irrev != exp && e.irrevUnknownW != e.w {
 			e.violate("irrev-height", fmt.Sprintf("after %s: irreversible height %d, expected max(height-w)=%d (w=%d)", tag, irrev, exp, e.w.Window), "")
 		}
 		if irrev < e.maxIrrevSeen {
@@ -1129,6 +1136,10 @@ func (e *Exec) exec1(op string, pos []string, kv map[string]string, line string)
 		e.checkState(line)
 		e.checkPool(line)
 		return "ok"
+	case "walkrace":
+		return e.opWalkRace(pos, kv, line)
+	case "raced":
+		return e.opRaced(pos)
 	case "mtruncate":
 		// Miner.truncateForMiner (what the miner does when the consensus names a truncate target): the state machine walks
 		// back WITHOUT pruning - finality holds against the consensus too - and only then the ledger is cut
